@@ -568,6 +568,13 @@ fn gen_quant_alt(rng: &mut Rng, g: &QGen, named: &[&Node]) -> Option<String> {
         _ => if g.named_kinds.is_empty() { "(_)".to_string() } else { format!("({})", rng.pick(&g.named_kinds)) },
     };
     let bcap = |rng: &mut Rng| if rng.chance(1, 4) { g.capture(rng) } else { String::new() };
+    // sometimes the real branch is itself an alternation (nested)
+    let real = if rng.chance(1, 5) {
+        let o = simple(rng.pick(&kids));
+        if rng.chance(1, 2) { format!("[{real} {o}]") } else { format!("[{o} {real}]") }
+    } else {
+        real
+    };
     let (b1, b2) = if rng.chance(1, 2) { (real, other) } else { (other, real) };
     let c1 = bcap(rng);
     let c2 = bcap(rng);
@@ -653,6 +660,58 @@ fn gen_quant_group(rng: &mut Rng, g: &QGen, named: &[&Node]) -> Option<String> {
     Some(format!("{s}{pc}\n"))
 }
 
+/// Family 8: a ROOT-LEVEL alternation `[A B …] @x`, preferably of kinds that occur directly under an
+/// ERROR node (patterns that are not "rooted" may not start there), the real kind in any position.
+fn gen_root_alt(rng: &mut Rng, g: &QGen, nodes: &[&Node]) -> Option<String> {
+    let under_error: Vec<&&Node> = nodes.iter().filter(|n| n.parent().map(|p| p.is_error()).unwrap_or(false) && !n.is_error()).collect();
+    let real: Node = if !under_error.is_empty() && rng.chance(2, 3) { ***rng.pick(&under_error) } else { **rng.pick(nodes) };
+    if real.is_error() || real.is_missing() {
+        return None;
+    }
+    let simple = |n: &Node| if n.is_named() { format!("({})", n.kind()) } else { quote(n.kind()) };
+    let real_pat = if real.named_child_count() > 0 && rng.chance(1, 3) {
+        let mut c = real.walk();
+        let kids: Vec<Node> = real.named_children(&mut c).filter(|k| !k.is_error() && !k.is_missing()).collect();
+        if kids.is_empty() { simple(&real) } else { format!("({} ({}))", real.kind(), rng.pick(&kids).kind()) }
+    } else {
+        simple(&real)
+    };
+    // sometimes the real branch is itself an alternation (nested), the real pattern first or last in it
+    let real_pat = if rng.chance(1, 4) {
+        let o = **rng.pick(nodes);
+        let op = if o.is_error() || o.is_missing() { "(_)".to_string() } else { simple(&o) };
+        if rng.chance(1, 2) { format!("[{real_pat} {op}]") } else { format!("[{op} {real_pat}]") }
+    } else {
+        real_pat
+    };
+    let n_branches = 2 + rng.below(2);
+    let pos = rng.below(n_branches);
+    let mut s = String::from("[");
+    for i in 0..n_branches {
+        if i > 0 {
+            s.push(' ');
+        }
+        if i == pos {
+            s.push_str(&real_pat);
+        } else {
+            let other = **rng.pick(nodes);
+            if other.is_error() || other.is_missing() {
+                s.push_str(&if g.named_kinds.is_empty() { "(_)".to_string() } else { format!("({})", rng.pick(&g.named_kinds)) });
+            } else {
+                s.push_str(&simple(&other));
+            }
+        }
+        if rng.chance(1, 4) {
+            s.push_str(&g.capture(rng));
+        }
+    }
+    s.push(']');
+    if rng.chance(3, 4) {
+        s.push_str(&g.capture(rng));
+    }
+    Some(format!("{s}\n"))
+}
+
 fn gen_query(rng: &mut Rng, g: &mut QGen, tree: &Tree) -> Option<String> {
     let nodes = all_nodes(tree);
     let named: Vec<&Node> = nodes.iter().filter(|n| n.is_named() && !n.is_missing()).collect();
@@ -681,7 +740,7 @@ fn gen_query(rng: &mut Rng, g: &mut QGen, tree: &Tree) -> Option<String> {
             }
         }
     }
-    match rng.below(12) {
+    match rng.below(13) {
         0 => {
             if let Some(q) = gen_negated_family(rng, g, &named) {
                 return Some(q);
@@ -709,6 +768,12 @@ fn gen_query(rng: &mut Rng, g: &mut QGen, tree: &Tree) -> Option<String> {
         }
         9 => {
             if let Some(q) = gen_quant_group(rng, g, &named) {
+                return Some(q);
+            }
+        }
+        10 => {
+            let all: Vec<&Node> = nodes.iter().collect();
+            if let Some(q) = gen_root_alt(rng, g, &all) {
                 return Some(q);
             }
         }
